@@ -45,6 +45,9 @@ func getDatetime() *Datetime {
 }
 
 func Discard(p Primary) {
+	if verifDiscard(p) {
+		return
+	}
 	if p != nil {
 		switch p.(type) {
 		case *String:
